@@ -434,6 +434,15 @@ def build_hostile():
     ne2 = base.recs[2]['name_end']
     dmg('r_a_aaaa', 'h_aaaa_rdlen15', 'AAAA with 15 data bytes',
         lambda p: (p.set16(ne2 + 8, 15), p.cells.pop(ne2 + 10)))
+    def a16(p):
+        p.set16(ne1 + 8, 16)
+        for _ in range(12):
+            p.cells.insert(ne1 + 10, ('any',))
+    dmg('r_a_aaaa', 'h_a_rdlen16', 'A record with 16 data bytes (the AAAA size)', a16)
+    def aaaa4(p):
+        p.set16(ne2 + 8, 4)
+        del p.cells[ne2 + 10:ne2 + 22]
+    dmg('r_a_aaaa', 'h_aaaa_rdlen4', 'AAAA record with 4 data bytes (the A size)', aaaa4)
     dmg('r_a_aaaa', 'h_trunc_last', 'last byte missing', lambda p: p.cells.pop())
     dmg('r_a_aaaa', 'h_trunc_rrhdr', 'packet ends inside the fixed part of the first answer', lambda p: p.cells.__delitem__(slice(ne1 + 7, None)))
     dmg('r_a_aaaa', 'h_trunc_name', 'packet ends inside the question name', lambda p: p.cells.__delitem__(slice(15, None)))
@@ -508,6 +517,12 @@ def build_hostile():
 
 def build_long():
     """boundary skeletons around the big limits (thorough tier)"""
+    p = Pk("r_far_ptr", desc="response of more than 1 KiB: a 1000-byte TXT record, then a name at an offset above 1024 that a later owner points to (14-bit pointer)")
+    p.question([('key', 'q0'), 1, 2, 0])
+    p.rr(1, [('ptr', 'q0')], T_TXT, rd_txt([250, 250, 250, 246]))
+    p.rr(1, [('key', 'far'), 2, 3, 0], T_A, rd_a)
+    p.rr(1, [1, ('ptr', 'far')], T_AAAA, rd_aaaa)
+    reg(p, 'valid', 'long', 'ptr', 'far')
     # 255-byte name: 63+63+63+61 -> 4 length bytes + 250 + root = 255
     p = Pk("r_name255", desc="response whose question name is exactly 255 bytes (63,63,63,61), answer owner points at it")
     p.question([('key', 'q0'), 63, 63, 63, 61, 0])
@@ -640,12 +655,15 @@ def build_rename_cases():
             near = wire([q[0][1:]] + q[1:])
             case("%s_nearmiss" % skn, skn, near, tgt_long, True, 'rotate' if tier != 'quick' or skn != 'r_mx_soa' else 'quick', "partial-label near miss: the source starts in the middle of a label")
         case("%s_exact_sfxname" % skn, skn, suf, tgt_short, False, 'rotate', "exact mode with a source that is only a suffix of most names")
+    # names that differ from the source only in bit 5 of a non-letter must not match
+    case("r_nocomp_punct_exact", 'r_nocomp_punct', wire([b"a{b", b"cc"]), tgt_long, False, 'quick', "exact match on a name that has a near twin differing in bit 5 of a non-letter ('{' vs '[')")
+    case("r_nocomp_punct_sfx", 'r_nocomp_punct', wire([b"x`", b"cc"]), tgt_short, True, 'rotate', "suffix match on 'x`.cc' with a near twin 'x@.cc' in the packet")
     # overflow: a 253-byte name + a target longer than the source
     pk = byname['r_name255_via_ptr']
     b = concrete_bytes(pk)
     q = expand_name(b, 12)
     case("r_name255_via_ptr_overflow", 'r_name255_via_ptr', wire(q[-1:]), wire([q[-1] + b"xx"]), True, 'thorough', "suffix rename that makes a 255-byte name 257 bytes long: must fail")
-    case("r_name255_via_ptr_256", 'r_name255_via_ptr', wire(q[-1:]), wire([q[-1] + b"x"]), True, 'thorough', "suffix rename that makes a 255-byte name exactly 256 bytes long: must fail")
+    case("r_name255_via_ptr_256", 'r_name255_via_ptr', wire(q[-1:]), wire([q[-1] + b"x"]), True, 'quick', "suffix rename that makes a 255-byte name exactly 256 bytes long: must fail")
     case("r_name255_via_ptr_fits", 'r_name255_via_ptr', wire(q[-1:]), wire([q[-1][:-1]]), True, 'thorough', "suffix rename that shortens maximal names by one byte")
 
 
@@ -725,7 +743,7 @@ def families():
                    'h_selfptr', 'h_ptr_root', 'h_trailing', 'h_count_plus', 'h_a_rdlen5', 'h_trunc_rrhdr', 'h_ctrl_char',
                    'h_cycle2', 'h_mx_rdlen2', 'h_soa_short', 'h_dname_ptr', 'h_opt_overrun', 'h_two_opts', 'h_opt_in_authority',
                    'h_query_with_answers', 'h_qd2', 'v_dname_ctrl', 'r_chain16', 'h_chain17', 'h_opt_rdlen_plus1', 'h_opt_rdlen_plus10',
-                   'h_opt2_rdlen_plus4'}
+                   'h_opt2_rdlen_plus4', 'h_a_rdlen16', 'h_aaaa_rdlen4'}
     for p in SK:
         long = 'long' in p.tags
         tier = 'quick' if p.name in quick_parse else ('thorough' if long else 'rotate')
@@ -824,7 +842,7 @@ def families():
         for m, mn in ((0, 'fn'), (1, 'obj')):
             t = c['tier'] if m == 0 else 'thorough'
             fam.append(dict(name="rn_%s_%s" % (mn, c['name']), body="p_rename::rename::<_, rn_gen::%s, %d>" % (c['type'], m),
-                            props=["C07"] if m == 0 else ["C07", "C08"], tier=t, est=200, timeout=1500 if t != 'thorough' else 3000, mem_gb=40,
+                            props=["C07"] if m == 0 else ["C07", "C08"], tier=t, est=200, timeout=1500 if (t != 'thorough' and 'name255' not in c['name']) else 3000, mem_gb=40,
                             bound="%s: %s | source %s target %s %s | skeleton %s (%d bytes): %s; label characters concrete, all other payload symbolic" % (
                                 "Renamer::rename_with_raw_names" if m == 0 else "ParsedPacket::rename_with_raw_names (+ object view vs fresh parse)",
                                 c['what'], c['source'].hex(), c['target'].hex(), "suffix mode" if c['suffix'] else "exact mode", pk.name, len(pk.cells), pk.desc),
@@ -901,16 +919,23 @@ def families():
     for sk in ('r_a_aaaa', 'r_mx_soa', 'r_optmid'):
         mut("renobj_%s" % sk, "p_mutate::rename_view::<_, skel_gen::%s>" % camel(sk), sk, ["C08"], 'rotate',
             "ParsedPacket::rename_with_raw_names(suffix = last label of the question name -> 'new.tg'): the object's view equals a fresh parse of its bytes (label characters concrete)")
+    for sk in ('r_ns_add_optlast', 'r_a_aaaa', 'q_opt2'):
+        mut("reinsq_%s" % sk, "p_mutate::reinsert_question::<_, skel_gen::%s>" % camel(sk), sk, ["C08", "C09"], 'rotate',
+            "program: delete the question through its cursor, then insert_rr(Section::Question, new question): the question is first again, nothing else moves; view == fresh parse")
+    for sk in ('r_a_aaaa', 'r_mx_soa'):
+        mut("renobj2_%s" % sk, "p_mutate::rename_after_uncompress::<_, skel_gen::%s>" % camel(sk), sk, ["C08"], 'rotate',
+            "program: in-place decompression through a cursor (maybe_compressed becomes false), then ParsedPacket::rename_with_raw_names: view == fresh parse and the pointer flag is consistent (label characters concrete)")
     QUICK_MUT = {
         'ttl_r_all_sections_ar0', 'ip_r_a_aaaa_an0', 'ip_r_a_aaaa_an1',
-        'name_short_r_all_sections_ar0', 'name_long_r_a_aaaa_an0', 'name_long_r_optmid_ar0', 'name_short_r_a_aaaa_q0', 'name_equal_r_three_a_an1',
+        'name_short_r_all_sections_ar0', 'name_long_r_a_aaaa_an0', 'name_long_r_optmid_ar0', 'name_short_r_a_aaaa_q0', 'name_equal_r_three_a_an1', 'name_equal_r_a_aaaa_q0',
+        'reinsq_r_ns_add_optlast', 'renobj2_r_a_aaaa',
         'namebad_label64_r_a_aaaa_an0', 'namebad_pointer_r_a_aaaa_an0', 'namebad_dot_r_a_aaaa_an0', 'namebad_ctrl1f_r_a_aaaa_an0',
         'del_r_a_aaaa_an0', 'del_r_optmid_ar0', 'del_r_all_sections_an0',
         'ins_r_a_aaaa_an', 'ins_r_all_sections_ns', 'ins_r_optmid_an', 'ins_second_question_r_a_aaaa',
         'cacheq_q_plain', 'itunc_r_a_aaaa_an1', 'hdrops_r_all_sections', 'recompute_r_all_sections', 'renobj_r_a_aaaa',
         'delwalk_r_three_a_an_m5', 'delwalk_r_optmid_ar_m1', 'delwalk_r_a_aaaa_an_m3',
     }
-    MUT_PREFIX = ('ttl_', 'ip_', 'name_', 'namebad_', 'del_', 'ins_', 'cacheq_', 'itunc_', 'hdrops_', 'recompute_', 'delwalk_', 'renobj_')
+    MUT_PREFIX = ('ttl_', 'ip_', 'name_', 'namebad_', 'del_', 'ins_', 'cacheq_', 'itunc_', 'hdrops_', 'recompute_', 'delwalk_', 'renobj_', 'reinsq_', 'renobj2_')
     for f in fam:
         if f['name'].startswith(MUT_PREFIX):
             f['tier'] = 'quick' if f['name'] in QUICK_MUT else 'rotate'
